@@ -225,6 +225,15 @@ func judge(sp Spec, o *obs) func(x *explore.Exec) *explore.Verdict {
 		byName := map[string]TaskSpec{}
 		for ti, t := range sp.Tasks {
 			byName[t.Name] = t
+			if unusableSandbox(t) {
+				if o.submitErr[t.Name] == nil {
+					return v("unusable-sandbox-accepted", "every accepted submission eventually finishes", "submission of %s with the unknown sandbox %q was accepted", t.Name, t.Sandbox)
+				}
+				if len(w.EventsOf(t.Name+".")) > 0 {
+					return v("refused-task-ran", "a refused submission never runs", "task %s was refused but executed", t.Name)
+				}
+				continue
+			}
 			if invalidWait(sp, ti) {
 				// the wait list names the task itself or a task submitted later: not "already existing"
 				if o.submitErr[t.Name] == nil {
@@ -389,11 +398,15 @@ func judge(sp Spec, o *obs) func(x *explore.Exec) *explore.Verdict {
 
 // invalidWait: the wait list of task ti names itself, a task submitted later, or a task whose own
 // submission had to be refused.
+// unusableSandbox: the submission names a sandbox that no builder knows - the runner has to refuse it,
+// and a refused submission is not a task anybody can wait for.
+func unusableSandbox(t TaskSpec) bool { return strings.HasPrefix(t.Sandbox, "nosuch:") }
+
 func invalidWait(sp Spec, ti int) bool {
 	for _, wn := range sp.Tasks[ti].Wait {
 		ok := false
 		for j := 0; j < ti; j++ {
-			if sp.Tasks[j].Name == wn && !invalidWait(sp, j) {
+			if sp.Tasks[j].Name == wn && !invalidWait(sp, j) && !unusableSandbox(sp.Tasks[j]) {
 				ok = true
 			}
 		}
@@ -487,6 +500,11 @@ func programs(thorough bool) []Spec {
 		sb.Separated = true
 		ps = append(ps, Spec{Tasks: []TaskSpec{sa, t("b")}, Bound: b}, Spec{Tasks: []TaskSpec{sa, sb}, Bound: b + 1}, Spec{Tasks: []TaskSpec{t("c"), sa}, Bound: b})
 	}
+	// a submission the runner has to refuse (unknown sandbox) is not a task: whoever names it in a wait
+	// list is refused as well and never runs
+	ns := t("a")
+	ns.Sandbox = "nosuch:box"
+	ps = append(ps, Spec{Tasks: []TaskSpec{ns, t("b", "a")}, Bound: b + 1}, Spec{Tasks: []TaskSpec{ns, t("b", "a"), t("c")}, Bound: b})
 	// a prerequisite whose scope is stopped gracefully (no error) while its command is still running: the
 	// dependent - in a scope with a context of its own - still waits for the END of the task
 	st := fail(t("a"), "stop1")
